@@ -99,7 +99,10 @@ def gen_stock_spec(rng, lead=None):
             b['side'] = rng.choice([1, -1])       # which root the first run converges to
         blocks.append(b)
     has_mf = any(k.endswith('-mf') for k in kinds)
-    cfg = rng.choice(['own', 'own', 'group'])
+    # who owns the solvers: 'own' the implicit components themselves (flat model); 'group' a Newton solver on a
+    # sub-group g holding all blocks; 'own-in-group' as 'own' but inside a sub-group g that has its own linear
+    # solver (masked apply_linear scopes, inputs of g fed from outside)
+    cfg = rng.choice(['own', 'own-in-group', 'group'])
     lins = ['direct-noasm', 'krylov'] + ([] if has_mf else ['direct-asm', 'direct-asm'])
     spec = {'family': 'stock', 'n': n, 'blocks': blocks, 'cfg': cfg,
             'a': [round(rng.uniform(*A_RANGE), 3) for _ in range(n)],
@@ -118,7 +121,11 @@ def gen_stock_spec(rng, lead=None):
     else:
         spec['root_ln'] = rng.choice(['runonce', 'lnbgs', 'krylov', 'direct-noasm'] +
                                      ([] if has_mf else ['direct-asm', 'direct-asm']))
+        if cfg == 'own-in-group':
+            spec['g_ln'] = rng.choice(['runonce', 'lnbgs', 'lnbgs', 'krylov', 'direct-noasm'] +
+                                      ([] if has_mf else ['direct-asm']))
     spec['asm_type'] = rng.choice(['dense', 'csc'])
+    spec['rhs_checking'] = rng.random() < 0.3
     moves = [m for m in MOVES_STOCK if m != 'statics' or any(k in JAX_KINDS for k in kinds)]
     if not any(b.get('disc') for b in blocks):
         moves.remove('discrete')
@@ -273,17 +280,18 @@ def _f_true(u, p):
 # ------------------------------------------------------------------------------------------------------------------
 # building
 # ------------------------------------------------------------------------------------------------------------------
-def _lin(om, t, mf):
+def _lin(om, t, mf, rhs_checking=False):
     if t == 'runonce':
         return om.LinearRunOnce()
     if t == 'lnbgs':
         return om.LinearBlockGS(iprint=-1, err_on_non_converge=False, atol=1e-14, rtol=1e-14, maxiter=12)
     if t == 'krylov':
-        return om.ScipyKrylov(iprint=-1, err_on_non_converge=False, atol=1e-14, rtol=1e-14, maxiter=200)
+        return om.ScipyKrylov(iprint=-1, err_on_non_converge=False, atol=1e-14, rtol=1e-14, maxiter=200,
+                              rhs_checking=rhs_checking)
     if t == 'direct-noasm':
-        return om.DirectSolver(assemble_jac=False)
+        return om.DirectSolver(assemble_jac=False, rhs_checking=rhs_checking)
     if t == 'direct-asm':
-        return om.DirectSolver(assemble_jac=not mf)
+        return om.DirectSolver(assemble_jac=not mf, rhs_checking=rhs_checking)
     raise ValueError(t)
 
 
@@ -301,7 +309,9 @@ def build_stock(spec):
     import openmdao.api as om
     import openmdao.func_api as omf
     n = spec['n']
-    own = spec['cfg'] == 'own'
+    own = spec['cfg'] != 'group'
+    wrap = spec['cfg'] != 'own'
+    rc = bool(spec.get('rhs_checking'))     # reverse-mode solution caches (keyed on the right-hand side)
     prob = om.Problem()
     root = prob.model
     ivc = root.add_subsystem('ivc', om.IndepVarComp())
@@ -309,7 +319,7 @@ def build_stock(spec):
     ivc.add_output('p', np.array(spec['p'], dtype=float))
     parent = root
     pre = ''
-    if not own:
+    if wrap:
         parent = root.add_subsystem('g', om.Group())
         pre = 'g.'
     info = {'states': [], 'statics': [], 'discretes': [], 'guess': [], 'paths': {}, 'zs': []}
@@ -334,7 +344,7 @@ def build_stock(spec):
             comp = cls(matrix_free=mf, use_jit=b['use_jit'], n=n, c=float(b['c']))
             if own:
                 comp.nonlinear_solver = _newton(om)
-                comp.linear_solver = _lin(om, b['ln'], mf)
+                comp.linear_solver = _lin(om, b['ln'], mf, rc)
                 if b['ln'] == 'direct-asm':
                     comp.options['assembled_jac_type'] = spec['asm_type']
             parent.add_subsystem(nm, comp)
@@ -356,7 +366,7 @@ def build_stock(spec):
             comp = om.ImplicitFuncComp(f, **({'use_jit': False} if jx else {}))
             if own:
                 comp.nonlinear_solver = _newton(om)
-                comp.linear_solver = _lin(om, b['ln'], False)
+                comp.linear_solver = _lin(om, b['ln'], False, rc)
                 if b['ln'] == 'direct-asm':
                     comp.options['assembled_jac_type'] = spec['asm_type']
             parent.add_subsystem(nm, comp)
@@ -430,12 +440,13 @@ def build_stock(spec):
     if info['zs']:
         root.connect(info['zs'][-1], 'post.z')
     has_mf = any(b['kind'].endswith('-mf') for b in spec['blocks'])
-    if not own:
-        parent.nonlinear_solver = _newton(om, spec['g_nl']['solve_subsystems'])
-        parent.linear_solver = _lin(om, spec['g_ln'], has_mf)
+    if wrap:
+        if not own:
+            parent.nonlinear_solver = _newton(om, spec['g_nl']['solve_subsystems'])
+        parent.linear_solver = _lin(om, spec['g_ln'], has_mf, rc)
         if spec['g_ln'] == 'direct-asm':
             parent.options['assembled_jac_type'] = spec['asm_type']
-    root.linear_solver = _lin(om, spec['root_ln'], has_mf)
+    root.linear_solver = _lin(om, spec['root_ln'], has_mf, rc)
     if spec['root_ln'] == 'direct-asm':
         root.options['assembled_jac_type'] = spec['asm_type']
     info['of'] = ['post.f']
